@@ -1039,13 +1039,29 @@ func TestZZVerifC06PipeTrace(t *testing.T) {
 		ntab = 400
 	}
 
+	prevQS := [][]any{}
 	for ti := 0; ti < ntab && !hung; ti++ {
 		tab, pool := zzC06BTable(rng)
+		if ti%3 == 2 && len(z.cur) > 0 {
+			// Every third table has the size of its predecessor, so that it
+			// is reached by updates in place.
+			for len(tab) > len(z.cur) {
+				tab = tab[:len(tab)-1]
+			}
+
+			for len(tab) < len(z.cur) {
+				tab = append(tab, tab[rng.Intn(len(tab))])
+			}
+		}
+
 		rws := make([]zzC06RW, len(tab))
 		for i := range tab {
 			rws[i] = conc.rewrite(&tab[i])
 		}
 
+		// The table the live server had before and the queries it was asked
+		// with it: what a reproduction has to rehearse.
+		prev := append([]zzC06RW{}, z.cur...)
 		if err := z.setTable(rws); err != nil {
 			t.Fatalf("setting table: %v", err)
 		}
@@ -1096,7 +1112,13 @@ func TestZZVerifC06PipeTrace(t *testing.T) {
 			qs = append(qs, rec)
 		}
 
-		w.put(map[string]any{"lvl": "pipe", "tab": tab, "qs": qs, "table": rws})
+		w.put(map[string]any{
+			"lvl": "pipe", "tab": tab, "qs": qs, "table": rws, "prev_table": prev, "prev_qs": prevQS,
+		})
+		prevQS = [][]any{}
+		for _, q := range qs {
+			prevQS = append(prevQS, []any{q["h"], q["qt"]})
+		}
 	}
 }
 
